@@ -966,6 +966,7 @@ func vfC10Session(t *testing.T, res *vfResult, idx int, si vfSuiteInfo) {
 			vfC10Session12(res, p, cfg, written, tag, round == 1)
 		}
 		res.Count("sessions_decoded", 1)
+		res.Sample(map[string]any{"session": tag, "records_on_wire": len(n.Emissions("")), "payloads_written": len(written["c"]) + len(written["s"])})
 		res.Count("sessions/"+si.Name, 1)
 		p.Close()
 		synctest.Wait()
